@@ -613,6 +613,28 @@ func (p *Program) checkEffectsC18(cfg *effectCfg) []effectObl {
 				obls = append(obls, effectObl{Name: fname + "#effect:no-map-iteration", OK: mapRanges == 0, Pos: p.fset.Position(fd.Pos()).String(),
 					Detail: "map iteration order is random"})
 				obls = append(obls, effectObl{Name: fname + "#effect:no-goroutine-or-select", OK: gos == 0, Pos: p.fset.Position(fd.Pos()).String()})
+				// no state carried from one open to the next: a package-level variable of the module that can hold
+				// mutable state (map, sync.Map, pointer, slice of structs, struct with such fields ...) makes the image depend
+				// on what was built before. Immutable values by type (sentinel errors, basic values, arrays / slices of basic
+				// values, structs of those) are tables.
+				carried, carriedPos := "", p.fset.Position(fd.Pos()).String()
+				ast.Inspect(fd.Body, func(n ast.Node) bool {
+					id, ok := n.(*ast.Ident)
+					if !ok || carried != "" {
+						return true
+					}
+					v, ok := info.Uses[id].(*types.Var)
+					if !ok || v.Pkg() == nil || v.IsField() || v.Parent() != v.Pkg().Scope() || !strings.HasPrefix(v.Pkg().Path(), modulePrefix) {
+						return true
+					}
+					if !immutableValueType(v.Type()) {
+						carried = v.Pkg().Name() + "." + v.Name()
+						carriedPos = p.fset.Position(id.Pos()).String()
+					}
+					return true
+				})
+				obls = append(obls, effectObl{Name: fname + "#effect:no-state-carried-between-opens", OK: carried == "", Pos: carriedPos,
+					Detail: "uses the package-level variable " + carried + " whose type can hold state that outlives one image construction"})
 			}
 		}
 	}
